@@ -238,6 +238,14 @@ class Topic(Entity):
             )
             delivery_events.append(delivery_event)
 
+        # The deliveries are emitted when this generator returns, i.e. after the
+        # per-subscriber latencies: stamp them with that instant (``now`` was
+        # captured before the first yield and lies in the past by then).
+        if self._clock is not None:
+            emit_time = self._clock.now
+            for delivery_event in delivery_events:
+                delivery_event.time = emit_time
+
         return delivery_events
 
     def publish_sync(self, message: Event) -> list[Event]:
